@@ -5,6 +5,8 @@
 // String, the integers held by a Variant container, the texts of the children of an Xml element; T::n
 // and the object's serial number for Ptr), the number of live payload blocks, the number of payload
 // releases, the sharing classes and the reference counters.
+// String also has `resize v n` (resize(min(n, length))) and `reserve v n`, the write accesses that reach
+// detach(.., minCapacity) with minCapacity = 0.
 // Payload blocks are counted by ASan's malloc/free hooks inside the window of the library call
 // (String, Variant, Xml::Variant) or by the pointee's constructor/destructor (Ptr).  EVERY other
 // allocation made inside a window (list item blocks, hash tables, array buffers, nested strings,
@@ -14,6 +16,9 @@
 // Case configuration: `<flavour> [kind]`, flavour = str | var | ptr | xml (prefix c: concurrent),
 // kind = list | map | array | string (var), element | text (xml), plain | conv (ptr: copy / assign go
 // through Ptr<Derived> and the converting constructor / assignment).
+//
+// Flavour `nest` (rc_nest.cpp): RefCount::Ptr handles to a pointee type that owns a handle itself; locations
+// <variable, depth>, assignment / reset / copy through member handles, cascading release.
 //
 // Concurrent part (flavours cstr / cvar / cptr / cxml): real threads, each owning its own handle
 // variables, some of which refer to one common payload.  Every atomic operation of the library
@@ -69,6 +74,11 @@ typedef Xml::Variant XV;
 static Flav flav;
 static Kind kind;
 static bool conc;
+// flavour `nest` (handles stored inside payloads) lives in rc_nest.cpp
+static bool nest;
+void nest_begin(const char* kind);
+void nest_op(long c, vh::Tok& t);
+void nest_end(long c);
 
 // ---- access trace (baton mode only: one thread runs at a time) -------------------------------------
 static int g_mode = 0;                   // 0: no scheduling, 1: baton passing, 2: free running
@@ -634,9 +644,10 @@ static void conc_op(long c, vh::Tok& t)
 static void begin(long, vh::Tok& t)
 {
   for(int i = 0; i < NSLOT; ++i) if(live[i]) destroy(i);
-  flav = STR; conc = false;
+  flav = STR; conc = false; nest = false;
   const char* f = t.n > 2 ? t.v[2] : "str";
   const char* k = t.n > 3 ? t.v[3] : "";
+  if(!strcmp(f, "nest")) { nest = true; nest_begin(k); return; }
   if(f[0] == 'c') { conc = true; ++f; }
   if(!strcmp(f, "var")) flav = VAR;
   if(!strcmp(f, "ptr")) flav = PTR;
@@ -669,6 +680,7 @@ static bool is_digits(const char* d)
 
 static void op(long c, long, vh::Tok& t)
 {
+  if(nest) { nest_op(c, t); return; }
   if(conc) { conc_op(c, t); return; }
   const char* o = t.v[0];
   int x = t.n > 1 ? atoi(t.v[1]) : 0;
@@ -717,6 +729,15 @@ static void op(long c, long, vh::Tok& t)
   } else if(!strcmp(o, "detach")) {
     if(flav == XML && kind == K_TEXT) { printf("%ld ?unsupported\n", c); return; }
     if(live[x] && flav != PTR) write(x, 0, 'w');
+  } else if(!strcmp(o, "resize") || !strcmp(o, "reserve")) {      // String only: resize(min(n, length)) / reserve(n)
+    if(t.n < 3 || arg[0] < '0' || arg[0] > '9' || y < 0 || y > 80) { printf("%ld ?bad-contents\n", c); return; }
+    if(flav != STR) { printf("%ld ?unsupported\n", c); return; }
+    if(live[x]) {
+      g_win = 1;
+      if(o[3] == 'i') { usize len = S(x)->length(); S(x)->resize((usize)y < len ? (usize)y : len); }
+      else S(x)->reserve((usize)y);
+      g_win = 0;
+    }
   } else if(!strcmp(o, "destroy")) {
     if(live[x]) destroy(x);
   } else { printf("%ld ?unknown-op\n", c); return; }
@@ -725,6 +746,7 @@ static void op(long c, long, vh::Tok& t)
 
 static void end(long c)
 {
+  if(nest) { nest_end(c); return; }
   for(int i = 0; i < NSLOT; ++i) if(live[i]) destroy(i);
   if(conc) { printf("%ld end\n", c); return; }
   if(T::bad) printf("%ld end BADCANARY\n", c);
